@@ -15,7 +15,7 @@ func init() {
 		title: "operator results for every combination of operand kinds",
 		run:   runC05,
 		decided: "which Go operation, on which operands in which order, under which guard, each operator arm of the evaluator performs (operator table extracted per operator tag with a may-set analysis over the tag tests and compared, as normalised dataflow, with the documented table): dispatch is exhaustive for every operator tag the parser can put on a node; comparisons map to Compare(left, right) ⊙ 0 with the unset special case; arithmetic uses the numeric coercions in (left, right) order, + concatenates string forms when either operand is a string; the divide-by-zero guards test the (truncated) divisor only and dominate the division; && and || evaluate the right operand only on the documented edge and yield booleans; `is` type names map to the matching tags; ~ / !~ compile the right operand's text and match the left operand's string form; the coercion tables isTruthy / asFloat64 / String / Compare." +
-			" Every operand is the result of evalExpr on the node's own child, left before right; a value that went through copyValue keeps its kind and payload.",
+			" Every operand is the result of evalExpr on the node's own child, left before right; a value that went through copyValue keeps its kind and payload. ~ and !~ answer with the verdict of the match and nothing else, and nothing outside that arm compiles a pattern; prefix ++ / -- yield the value that was stored.",
 		notDecided: "IEEE results, strings.Compare and RE2 semantics (trusted libraries), i.e. the numerical table itself.",
 	})
 }
@@ -387,11 +387,11 @@ func runC05(c *Ctx) {
 		"Percent":      {"cell{val((int(" + aL + ") % int(" + aR + ")))}"},
 		// the verdict of the match and nothing else: a constant answer for some operands (the same cell on
 		// both sides, a string equal to the pattern text) skips the match and the compile error (F-30)
-		"Tilde":        {"cell{val((*regexp.Regexp).MatchString(regexp.Compile(*R.Value.Str)#0, String(&L.Value)))}"},
-		"BangTilde":    {"cell{val(!(*regexp.Regexp).MatchString(regexp.Compile(*R.Value.Str)#0, String(&L.Value)))}"},
-		"Equal":        {"evalAssignment(e, expr, L, R)#0"},
-		"Dot":          {"GetMember(&L.Value, R.Value)#0", "cell{val(nil) with {Str: &String(&R.Value), Num: R.Value.Num, ParentObj: &L.Value}}"},
-		"LSquare":      {"GetMember(&L.Value, R.Value)#0", "cell{val(nil) with {Str: &String(&R.Value), Num: R.Value.Num, ParentObj: &L.Value}}"},
+		"Tilde":     {"cell{val((*regexp.Regexp).MatchString(regexp.Compile(*R.Value.Str)#0, String(&L.Value)))}"},
+		"BangTilde": {"cell{val(!(*regexp.Regexp).MatchString(regexp.Compile(*R.Value.Str)#0, String(&L.Value)))}"},
+		"Equal":     {"evalAssignment(e, expr, L, R)#0"},
+		"Dot":       {"GetMember(&L.Value, R.Value)#0", "cell{val(nil) with {Str: &String(&R.Value), Num: R.Value.Num, ParentObj: &L.Value}}"},
+		"LSquare":   {"GetMember(&L.Value, R.Value)#0", "cell{val(nil) with {Str: &String(&R.Value), Num: R.Value.Num, ParentObj: &L.Value}}"},
 	}
 	c.note("R2/R3 comparison- and arithmetic-table: per operator tag, the set of distinct success results of evalBinaryExpr (L, R = the evaluated left / right operand cells): %v", oracle)
 	var ops []string
@@ -767,6 +767,33 @@ func valueTagPrintedNames(p *Program) map[string]string {
 // R7 regex-arm
 func c05Regex(c *Ctx, eb *ssa.Function) {
 	p := c.P
+	// an invalid pattern is a runtime error raised when the match is evaluated — and only then: nothing
+	// but the match arm of the evaluator compiles a pattern (a parser that validates regex literals turns
+	// a pattern that is never matched, or sits behind a short circuit, into a syntax error)
+	{
+		n := 0
+		for _, fn := range p.Funcs {
+			if !(p.InLang(fn) || p.InCli(fn)) || p.inTestFile(fn) {
+				continue
+			}
+			for _, call := range callsIn(fn) {
+				f := call.Common().StaticCallee()
+				if f == nil || f.Pkg == nil || f.Pkg.Pkg.Path() != "regexp" {
+					continue
+				}
+				switch f.Name() {
+				case "Compile", "MustCompile", "CompilePOSIX", "MustCompilePOSIX", "Match", "MatchString", "MatchReader":
+				default:
+					continue
+				}
+				n++
+				c.check(fn == eb || p.inClusterOf(eb, fn), "R7", "pattern-compiled-by-the-match-only "+shortName(fn), p.InstrPos(call), "compiled where the match is evaluated", "a regular expression is compiled in "+shortName(fn)+", outside the evaluation of ~ / !~: a pattern is then judged (and its error raised) at another time than the match — at parse time an invalid literal that is never matched becomes a syntax error")
+			}
+		}
+		if n == 0 {
+			c.undecided("R7", "pattern-compiled-by-the-match-only", p.Pos(eb.Pos()), "no call of regexp.Compile found")
+		}
+	}
 	c.note("R7 regex-arm: the pattern text is *right.Value.Str under right tag string|regex (anything else is an error); it is compiled by regexp.Compile on every evaluation, the compile error is reported as a runtime error, the compiled regexp of this evaluation is matched against String(left); !~ negates the ~ result.")
 	var compile, match *ssa.Call
 	for _, call := range callsIn(eb) {
